@@ -32,7 +32,7 @@ func (a Action) String() string {
 	switch a.Kind {
 	case "ch-h", "ch-d":
 		return fmt.Sprintf("%s%d", a.Kind, a.I)
-	case "p2p-h", "p2p-d":
+	case "p2p-h", "p2p-d", "p2p-h+", "p2p-d+":
 		return fmt.Sprintf("%s<=%d", a.Kind, a.I)
 	case "da":
 		s := "da["
@@ -89,7 +89,9 @@ type FN struct {
 	// Release is set by scenarios that stall a double; it lets the stalled calls continue.
 	Release func()
 	// slow makes every execution call take a moment, so that the sync loop lags behind the DA scan
-	slow atomic.Bool
+	// ExecMarks: number of execution calls the double had received at each restart
+	ExecMarks []int
+	slow      atomic.Bool
 	// gate (with slow): an execution call waits until the DA scan of the current action is idle (scanIdle)
 	gate     atomic.Bool
 	scanIdle atomic.Bool
@@ -172,6 +174,7 @@ func (f *FN) Restart(clean bool) error {
 		_ = os.RemoveAll(f.RootDir + "/data/cache")
 	}
 	f.Restarts++
+	f.ExecMarks = append(f.ExecMarks, len(f.Exec.Execs()))
 	f.slow.Store(false)
 	f.gate.Store(false)
 	f.stopAfterExecs.Store(0)
@@ -261,6 +264,28 @@ func (f *FN) Do(a Action) error {
 		if err := f.L.SignalBarrier("dataStore", "dataStore"); err != nil {
 			return err
 		}
+	case "p2p-h+", "p2p-d+":
+		// the items reach the P2P stores and nothing ticks the store loops: what the node makes of them is up to its own
+		// timers, or to a later tick - possibly after a restart
+		if a.Kind == "p2p-h+" {
+			for ; f.p2pH <= a.I && f.p2pH < len(f.P.Heights); f.p2pH++ {
+				f.N.HStore.Add(f.P.Header(f.p2pH))
+				f.GotH[f.p2pH] = true
+			}
+		} else {
+			for ; f.p2pD <= a.I && f.p2pD < len(f.P.Heights); f.p2pD++ {
+				f.N.DStore.Add(f.P.Data(f.p2pD))
+				f.GotD[f.p2pD] = true
+			}
+		}
+		return nil
+	case "p2p-tick":
+		if err := f.L.SignalBarrier("headerStore", "headerStore"); err != nil {
+			return err
+		}
+		if err := f.L.SignalBarrier("dataStore", "dataStore"); err != nil {
+			return err
+		}
 	case "scan":
 		if err := f.L.RetrieveUntilIdle(f.DA, f.DA.Height()+1); err != nil {
 			return err
@@ -340,6 +365,12 @@ func (f *FN) AddP2PBatch(genuineUpTo int, foreign *types.SignedHeader) error {
 		f.p2pH++
 	}
 	return f.p2pHeaderTick()
+}
+
+// AddP2PForgedData puts a data item a peer made up into the next position of the P2P data store (no tick).
+func (f *FN) AddP2PForgedData(d *types.Data) {
+	f.N.DStore.Add(d)
+	f.p2pD++
 }
 
 func (f *FN) p2pHeaderTick() error {
